@@ -209,6 +209,16 @@ fn main() {
             "deep" => deep_case(p[1].parse().unwrap(), p[2].parse().unwrap()),
             "dval" => deep_value_case(&p[1], p[2].parse().unwrap(), p[3].parse().unwrap()),
             "co" => coerce_case(&p[1], &p[2], if p.len() > 3 { &p[3] } else { "" }),
+            // decoding with NO expected types: the values of the message as they are, handed back through the untyped encoder
+            // (re-encoded at the message's own types, given as text: the untyped encoder infers a vector's type from its first element)
+            "cu" => match candid::IDLArgs::from_bytes(&hexd(&p[1])) {
+                Ok(args) => {
+                    let mut types = Vec::new();
+                    for t in p[2].split(',').filter(|t| !t.is_empty() && *t != "-") { types.push(tyx::P { s: t.as_bytes(), i: 0 }.ty()); }
+                    match args.to_bytes_with_types(&candid::TypeEnv::new(), &types) { Ok(b) => format!("ok {}", hexe(&b)), Err(e) => format!("REENCODE-ERR {e}") }
+                }
+                Err(_) => "err".to_string(),
+            },
             "nt" => native_case(p[1].parse().unwrap(), &p[2]),
             "tc" => typecheck_case(&p[1]),
             "nq" => native_quota_case(p[1].parse().unwrap(), &p[2], &p[3], &p[4]),
